@@ -13,6 +13,10 @@ pub struct TrackSpec {
     pub poison_merge: bool,
     /// (class, tag, q) observations added in order through the store's builder
     pub obs: Vec<(u64, u32, f32)>,
+    /// ids of (empty) tracks merged into this one beforehand with history on, so
+    /// that the track carries a merge history of its own
+    #[serde(default)]
+    pub absorbed: Vec<u64>,
 }
 
 #[derive(Clone, Debug, PartialEq, Serialize, Deserialize)]
@@ -157,6 +161,7 @@ pub fn gen_spec(r: &mut Rng, ids: u64, faults: bool, max_obs: u64) -> TrackSpec 
         status: *r.pick(&[0u8, 0, 0, 1, 2, 3]),
         poison_merge: faults && r.chance(1, 10),
         obs,
+        absorbed: if r.chance(1, 4) { (0..r.range(1, 2)).map(|_| 100 + r.below(50)).collect() } else { vec![] },
     }
 }
 
